@@ -176,6 +176,8 @@ impl Drop for Incomplete {
         let mut stack = Vec::new();
         push_children(&mut stack, std::mem::replace(self, Incomplete::Cycle));
         while let Some(child) = stack.pop() {
+            #[cfg(feature = "verif-hooks")]
+            crate::verif_hooks::sched_point(crate::verif_hooks::SchedPoint::IncompleteDrop);
             if let Some(mut child) = Arc::into_inner(child) {
                 push_children(&mut stack, std::mem::replace(&mut child, Incomplete::Cycle));
             }
